@@ -69,6 +69,14 @@ class Nnf:
                     else:
                         new_e = self.manager.And(args)
                     solved.append(new_e)
+                elif e.is_exists() or e.is_forall():
+                    # not Exists x. phi == Forall x. not phi (and vice versa)
+                    body = solved.pop()
+                    if e.is_exists() == p:
+                        new_e = self.manager.Exists(body, *e.variables())
+                    else:
+                        new_e = self.manager.Forall(body, *e.variables())
+                    solved.append(new_e)
                 else:
                     raise UPUnreachableCodeError(
                         "This code branch should never be reached!"
@@ -76,6 +84,10 @@ class Nnf:
             else:
                 if e.is_not():
                     stack.append((not p, e.arg(0), False))
+                elif e.is_exists() or e.is_forall():
+                    # negations are pushed through quantifiers and their bodies normalized
+                    stack.append((p, e, True))
+                    stack.append((p, e.arg(0), False))
                 elif e.is_and() or e.is_or():
                     stack.append((p, e, True))
                     for arg in e.args:
